@@ -170,6 +170,52 @@ func (fr *Frame) siteOrd(kind string, in ssa.Instruction) int {
 	return fr.nextOrd("dyn:" + kind)
 }
 
+// dumpSites lists the at-sites of the function (debug aid: GOVC_SITES=1).
+func (fr *Frame) dumpSites(x *Exec) {
+	fr.siteOrd("", nil)
+	type row struct {
+		line int
+		s    string
+	}
+	var rows []row
+	for _, b := range fr.fn.Blocks {
+		for _, i := range b.Instrs {
+			n, ok := fr.siteOrds[i]
+			if !ok {
+				continue
+			}
+			var name string
+			switch v := i.(type) {
+			case *ssa.Go:
+				name = "go"
+			case *ssa.Send:
+				name = "send"
+			case *ssa.Select:
+				name = "select"
+			case *ssa.MakeChan:
+				name = "makechan"
+			case *ssa.UnOp:
+				name = "recv"
+			case *ssa.Call:
+				if _, ok := v.Call.Value.(*ssa.Builtin); ok {
+					name = "close"
+				} else {
+					name = "call:" + shortCallee(&v.Call)
+				}
+			case *ssa.Defer:
+				name = "call:" + shortCallee(&v.Call) + " (deferred)"
+			}
+			p := x.eng.fset.Position(i.Pos())
+			rows = append(rows, row{p.Line, fmt.Sprintf("  %s#%d  @ line %d", name, n, p.Line)})
+		}
+	}
+	sort.Slice(rows, func(a, b int) bool { return rows[a].line < rows[b].line })
+	fmt.Fprintf(os.Stderr, "SITES %s\n", fr.unit)
+	for _, r := range rows {
+		fmt.Fprintln(os.Stderr, r.s)
+	}
+}
+
 func (fr *Frame) nextOrd(kind string) int {
 	n := fr.ord[kind]
 	fr.ord[kind] = n + 1
@@ -746,6 +792,7 @@ func (x *Exec) enterLoop(fr *Frame, li *loopInfo, cur *State, ins []edgeState) *
 		x.vc.assumeTyped(hv, v, phi.Type())
 	}
 	_ = before
+	x.assumeGlobalInvs(fr, hv)
 	// 3. assume invariants
 	for _, inv := range autos {
 		x.vc.assume(hv.pc, inv(hv))
